@@ -25,3 +25,34 @@ package bytes
 //@   ensures result1 == nil <==> (len(body) > 0 && isdigits(body, len(body)) && natval(body, len(body)) <= 9223372036854775807)
 //@   ensures result1 == nil ==> result0 == (neg ? 0 - natval(body, len(body)) : natval(body, len(body)))
 //@   no_panic
+
+// ---- text positions (C16) -----------------------------------------------------------------------------------
+
+// the text's newline symbol: the cached one, otherwise the last byte of the first run of \n / \r (default \n)
+//@ fun nlOf(b Bytes) Int := (b.nl == 10 || b.nl == 13) ? b.nl : nlsym(b.data, len(b.data))
+
+//@ func (Bytes).NewLineSymbol
+//@   property C16 C02
+//@   ensures result == nlOf(b)
+//@   ensures result == 10 || result == 13
+//@   no_panic
+//@   loop#1 invariant -1 <= rangeindex && rangeindex < len(b.data) && nlphase(b.data, rangeindex+1) != 2
+//@   loop#1 invariant b.nl == nlsym(b.data, rangeindex+1) && found == (nlphase(b.data, rangeindex+1) == 1) && b.data == old(b.data)
+//@   loop#1 decreases len(b.data) - rangeindex
+//@   at loop#1.entry use unfold_nlphase(b.data, 0); unfold_nlsym(b.data, 0)
+//@   at loop#1.back use unfold_nlphase(b.data, rangeindex+1); unfold_nlsym(b.data, rangeindex+1)
+//@   at return#2 use unfold_nlphase(b.data, rangeindex+1); unfold_nlsym(b.data, rangeindex+1); nlsym_stable(b.data, rangeindex+1, len(b.data)); nlsym_isnl(b.data, len(b.data))
+
+//@ func (Bytes).LineAndColumn
+//@   property C16 C02
+//@   ensures (len(b.data) == 0 || len(b.data) <= index) ==> line == 0 && column == 0
+//@   ensures index < len(b.data) ==> line == 1 + bcount(b.data, index, nlOf(b)) && column == 1 + bsince(b.data, index, nlOf(b))
+//@   ensures index < len(b.data) ==> 1 <= line && line <= index + 1 && 1 <= column && column <= index + 1
+//@   no_panic
+//@   loop#1 invariant -1 <= rangeindex && rangeindex < index && index < len(b.data) && nl == nlOf(b)
+//@   loop#1 invariant line == bcount(b.data, rangeindex+1, nl) && column == bsince(b.data, rangeindex+1, nl)
+//@   loop#1 decreases index - rangeindex
+//@   loop#1 use bcount_bounds(b.data, rangeindex+1, nl)
+//@   at loop#1.entry use unfold_bcount(b.data, 0, nl); unfold_bsince(b.data, 0, nl)
+//@   at loop#1.back use unfold_bcount(b.data, rangeindex+1, nl); unfold_bsince(b.data, rangeindex+1, nl)
+//@   at return use bcount_bounds(b.data, index, nlOf(b))
